@@ -121,6 +121,7 @@ def byte_atoms(f, cond):
 def eval_cond(n, env):
     n = ex.strip(n)
     k = n.get("k")
+    M64 = (1 << 64) - 1
     if k in ("const", "enum"):
         return n["v"]
     if k == "idx" and ex.show(n["b"]) == "buffer":
@@ -444,6 +445,33 @@ def check_opc(ck, prog):
                 tab = [ex.const_val(x) for x in ex.strip(g["init"])["e"]]
     ck.ob("C15-OPC", "ia64-table", tab == B.IA64_BRANCH_TABLE, common.where(f), "IA-64 BRANCH_TABLE = %s" % tab,
           key="OPC:ia64-table")
+    # IA-64: the slot predicate depends on the opcode (bits 37..40 == 5) and btype (bits 9..11 == 0) only -- the
+    # predicate register field (bits 0..5) is NOT examined by the reference filter
+    f = prog.fn("ia64_code", "ia64.c")
+    iconds = [b.term["cond"] for b in f.blocks.values() if b.term and "cond" in b.term and
+              any(x.get("k") == "var" and x["n"] == "inst_norm" for x in ex.walk(b.term["cond"]))]
+    ibits = list(range(0, 6)) + [9, 10, 11] + [37, 38, 39, 40]
+    badv = None
+    ni = 0
+    for combo in range(1 << len(ibits)):
+        v = 0
+        for j, bt in enumerate(ibits):
+            if combo >> j & 1:
+                v |= 1 << bt
+        try:
+            got = all(bool(eval_cond(c, {"inst_norm": v})) for c in iconds)
+        except (AnalysisBroken, KeyError):
+            raise AnalysisBroken("ia64_code: slot predicate uses something else than inst_norm")
+        ni += 1
+        if got != B.ia64_slot(v) and badv is None:
+            badv = (v, got)
+    total += ni
+    ck.ob("C15-OPC", "ia64-slot", badv is None and len(iconds) >= 2, common.where(f),
+          "IA-64: slot predicate equals ((inst >> 37) & 0xF) == 5 && ((inst >> 9) & 7) == 0 on all %d assignments of the bits "
+          "0-5, 9-11, 37-40" % ni if badv is None else
+          "IA-64: a slot with instruction bits %#x is %s by the code but %s by the reference filter (predicated branches "
+          "are converted too)" % (badv[0], "converted" if badv[1] else "skipped", "skipped" if badv[1] else "converted"),
+          key="OPC:ia64-slot")
     # pc bias
     for arch, bias in B.PC_BIAS.items():
         f = prog.fn(arch + "_code", arch + ".c")
@@ -909,7 +937,28 @@ def check_proto(ck, prog):
     ck.ob("C15-PROTO", "tail-flushed-at-eof", flushed, common.where(f),
           "simple_code: at end of input the held-back tail is released unfiltered (filtered = size)",
           key="PROTO:tail-flush")
-    ck.floor("C15-PROTO", 5)
+    # the bytes kept in coder->buffer are always offered to the filter before they are flushed; end_was_reached only
+    # decides how many of them are released
+    cf = [b for b, i, e in f.iter_elems() for c in ex.calls(e, into_refs=True)
+          if c.get("fn") == "call_filter" and c["args"] and len(c["args"]) > 1 and ex.show(c["args"][1]) == "coder->buffer"]
+    doms_ = cfg.dominators(f)
+    dep = False
+    for b in cf:
+        for d in doms_.get(b.id, ()):
+            blk = f.blocks[d]
+            if blk.term and "cond" in blk.term and len(blk.succs) == 2 and "end_was_reached" in ex.show(blk.term["cond"]):
+                for s_ in blk.succs:
+                    other = [x for x in blk.succs if x != s_]
+                    if s_ is not None and (s_ == b.id or s_ in doms_.get(b.id, ())) and other and other[0] != s_:
+                        # b is reached through only one edge of a test of end_was_reached
+                        if not (other[0] == b.id or other[0] in doms_.get(b.id, ())):
+                            dep = True
+    ck.ob("C15-PROTO", "buffer-always-filtered", bool(cf) and not dep, common.where(f),
+          "simple_code: call_filter(coder->buffer) does not depend on end_was_reached" if cf and not dep else
+          "simple_code(): call_filter(coder, coder->buffer, ...) is skipped when end_was_reached is set: the last bytes of the "
+          "stream that were waiting in coder->buffer are released unfiltered, so the result depends on how the output was "
+          "sliced", key="PROTO:buffer-always-filtered")
+    ck.floor("C15-PROTO", 6)
 
 
 def run(ck):
@@ -936,4 +985,7 @@ def run(ck):
     reinit.check_init_consistency(ck, prog_all, "C15-INITCONS", files={"simple_coder.c", "delta_common.c", "delta_encoder.c",
                                                                        "delta_decoder.c"})
     ck.floor("C15-INITCONS", 4)
+    ck.rule("C15-READFIRST", "BCJ/delta: what the coding function can read before storing to it is stored by the init function on every path returning LZMA_OK (delta history, positions, buffers)")
+    reinit.check_read_first(ck, prog_all, "C15-READFIRST", files={"simple_coder.c", "delta_common.c"})
+    ck.floor("C15-READFIRST", 10)
     check_bits(ck, prog)
